@@ -101,8 +101,12 @@ def pkey(place, upto=None):
 
 
 class Sym:
-    def __init__(self, facts, max_visits=2, max_paths=20000, inline=None, inline_depth=2, pure=None):
+    def __init__(self, facts, max_visits=2, max_paths=20000, inline=None, inline_depth=2, pure=None,
+                 stop_blocks=None, stop_calls=None, cut_at_yield=False):
         self.facts = facts
+        self.stop_blocks = set(stop_blocks or ())     # (fnpath, bb): finish the path when entered a 2nd time
+        self.stop_calls = stop_calls or (lambda fn: False)   # finish the path at such a call (e.g. self-recursion)
+        self.cut_at_yield = cut_at_yield
         self.max_visits = max_visits
         self.max_paths = max_paths
         self.inline = inline or (lambda fn: False)
@@ -239,12 +243,14 @@ class Sym:
                         st.ver[base] = uid
 
     # ------------------------------------------------------------ driver
-    def paths(self, body, args=None, depth=0, st0=None):
+    def paths(self, body, args=None, depth=0, st0=None, seed=None):
         out = []
         st = st0.clone() if st0 is not None else State(body)
         if st0 is None:
             for i in range(1, body.j["arg_count"] + 1):
                 st.env["_%d" % i] = args[i - 1] if args else ("arg", i)
+            for k, v in (seed or {}).items():
+                st.env[k] = v
         self._walk(body, 0, st, out, depth)
         return out
 
@@ -265,6 +271,9 @@ class Sym:
         fnpath = body.path
         while True:
             v = st.visits.get((fnpath, bb), 0)
+            if v >= 1 and (fnpath, bb) in self.stop_blocks:
+                self._finish(st, "stop", None, out)
+                return
             if v >= self.max_visits:
                 self._finish(st, "cut", None, out)
                 return
@@ -275,7 +284,8 @@ class Sym:
                 if s["k"] == "assign":
                     e = self.rvalue(st, s["rv"])
                     if s["place"]["p"]:
-                        st.events.append(Event("store", bb, fnpath, place=pkey(s["place"]), value=e, extra=s))
+                        idx = tuple(st.env.get("_%d" % el["l"], ("unk", "_%d" % el["l"])) for el in s["place"]["p"] if el["k"] == "index")
+                        st.events.append(Event("store", bb, fnpath, place=pkey(s["place"]), value=e, extra=s, args=idx))
                     self.assign(st, s["place"], e, s["rv"])
                 elif s["k"] == "set_discr":
                     st.events.append(Event("store", bb, fnpath, place=pkey(s["place"]) + "#discr", value=("int", s["v"]), extra=s))
@@ -302,6 +312,9 @@ class Sym:
                 continue
             if k == "yield":
                 st.events.append(Event("yield", bb, fnpath, value=self.operand(st, t["value"]), term=t))
+                if self.cut_at_yield:
+                    self._finish(st, "yield", None, out)
+                    return
                 self.uid += 1
                 self.assign(st, t["resume_arg"], ("resume", self.uid))
                 bb = t["resume"]
@@ -349,6 +362,10 @@ class Sym:
                 self.uid += 1
                 uid = self.uid
                 short = fn["name"] if fn else "?"
+                if fn and self.stop_calls(fn):
+                    st.events.append(Event("call", bb, fnpath, name=name, fn=fn, args=args, result=None, term=t, extra="stop"))
+                    self._finish(st, "stop", None, out)
+                    return
                 callee_body = None
                 if fn and depth < self.inline_depth and self.inline(fn):
                     callee_body = self.facts.body(callee_name(fn)) or self.facts.body(fn["path"])
